@@ -374,7 +374,10 @@ func (vc *VC) checkExit(fs *FuncSpec, fname, suffix string, exits []Exit, args [
 		}
 	}
 	for k, cl := range fs.Clauses {
-		if cl.Kind == "ensures" {
+		// posttrusted: the postconditions stay assumptions of the callers (listed as trusted in the
+		// evidence); the body is still checked for its loop invariants, assertions, callee
+		// preconditions and safety, and for the ensures clauses whose label starts with "checked"
+		if cl.Kind == "ensures" && (!fs.Flags["posttrusted"] || strings.HasPrefix(clauseLabel(cl, k), "checked")) {
 			if cf := vc.clauseFn(cl); cf != nil {
 				r := vc.evalSpec(cf, full, st, st0)
 				// ensures clauses are proved in order; a later one may use the earlier ones
